@@ -38,6 +38,10 @@ pub struct Profile {
     pub iter_every: usize,
     pub forge_per_step: usize,
     pub track_alloc: bool,
+    /// lookup APIs tried per probed handle and key kind (all of them unless reduced for Miri)
+    pub api_subset: usize,
+    /// walk the invariants of every archetype after each step (else: two random ones)
+    pub inv_all: bool,
 }
 
 impl Profile {
@@ -64,6 +68,8 @@ impl Profile {
             iter_every: 4,
             forge_per_step: 0,
             track_alloc: true,
+            api_subset: N_LOOKUPS,
+            inv_all: true,
         }
     }
 }
